@@ -23,13 +23,28 @@ def repo_root():
     return os.environ.get("VERIF_REPO", "/repo")
 
 
-def load_contracts():
+LOAD_ERRORS: dict = {}
+
+
+def load_contracts(prop=None):
+    """Import every contracts/*.py. A file that fails to import is fatal only for the property whose files it
+    belongs to (c<NN>_*.py); for other properties it is reported as a NOTE (files are edited independently)."""
     from pyvc import api
     for f in sorted(glob.glob(os.path.join(VERIF, "contracts", "*.py"))):
         name = os.path.basename(f)[:-3]
         if name.startswith("_"):
             continue
-        importlib.import_module(f"contracts.{name}")
+        try:
+            importlib.import_module(f"contracts.{name}")
+        except BaseException:  # noqa
+            LOAD_ERRORS[name] = traceback.format_exc()
+    if prop is not None:
+        mine = {n: t for n, t in LOAD_ERRORS.items() if n.lower().startswith(prop.lower() + "_")}
+        for n in LOAD_ERRORS:
+            if n not in mine:
+                print(f"NOTE: contracts/{n}.py failed to import (not a {prop} file; ignored for this property)")
+        if mine:
+            raise RuntimeError("contract files of this property failed to import:\n" + "\n".join(mine.values()))
     return api
 
 
@@ -161,7 +176,7 @@ def main(argv=None):
     if a.replay:
         return do_replay(a.replay)
     try:
-        api = load_contracts()
+        api = load_contracts(prop)
     except BaseException:  # noqa
         traceback.print_exc()
         print(f"CRASH property={prop} loading contracts")
